@@ -43,6 +43,17 @@ ENTRIES = {
             "The fluctuation GLM is assumed to solve its score equations (measured on a reference fit, 1e-7*n); floating "
             "point is outside the theorems ('to numerical precision' = exact identity + measured residual).",
             "Lean 4 proof + translator (unit maps) + probe-based differential correspondence", "DESIGN.md §6 C03"),
+    'C06': ("Lean theorems on the executed interval definitions (linear / log scale limits, containment for z,se >= 0, "
+            "nestedness in z, z(alpha) = ppf(1-alpha/2) nonnegative and antitone for a strictly increasing ppf with "
+            "ppf(1/2)=0, hence nestedness in alpha) and on the calculators generated from zepid/calc/utils.py (limits are "
+            "literally linCI/logCI of point, ppf(1-alpha/2), se; point and se independent of alpha), the influence-curve SE "
+            "(sum of squares /(m-1)/n >= 0), the cross-fit pooling rule (>= 0, equals the single value when partitions "
+            "agree) and the saturated-MSM sandwich; known findings F12, F15, F16 are carried as a proved _partial statement "
+            "plus a kernel-checked refutation of the full one. Differential + direct checks over a 33-point alpha grid for "
+            "every calculator, frame class, AIPTW, TMLE, StochasticTMLE, IPTW (fixed 95%) and the four cross-fit classes.",
+            "norm.ppf is a parameter with two assumed properties (monotone grid check each run); exp/log/sqrt laws "
+            "instantiated at the reals; weighted AIPTW reports NaN SE (judged for coherent NaN only).",
+            "Lean 4 proof over translated source + differential correspondence", "DESIGN.md §6 C06"),
     'C07': ("Lean theorems on the definitions generated from zepid/calc/utils.py (textbook formulas, rejection iff a "
             "count is non-positive, swap/transpose laws) and on a hand model of the data-frame classes (cross-tab by "
             "masks, missing counters, one count-function call per level); generated code is re-translated every run and "
@@ -58,6 +69,16 @@ ENTRIES = {
             "GLM fits assumed to solve their score equations (measured; rank-deficient designs discarded); stable sort and "
             "patsy NaN handling are glue reached by the differential gates only.",
             "Lean 4 proof (induction over time points, stratum regrouping) + differential correspondence", "DESIGN.md §6 C12"),
+    'C15': ("Lean theorems, any field / any number of rows / any weights and fitted values: the estimating function is "
+            "rha - lhm*psi with exactly the matrices _closed_form_solver_ assembles (given A*A = A); any solution of the "
+            "linear system is an exact root and conversely; the modelled solve (Cramer, p <= 3) returns a root, fails iff "
+            "det = 0, and any root equals it when det != 0 (general p: injective lhm); one-parameter model with a cell-fit "
+            "exposure model gives the n*p*(1-p)-weighted average of stratum mean differences. Exact rational model fed "
+            "reference GLM fitted values vs reported psi; exact rational residual of the estimating equations at the "
+            "reported psi; closed vs search solver.",
+            "Agreement of the Nelder-Mead search solver is numerical: stalls (objective > 1e-6) are counted as discards, "
+            "run-away divergence is known finding F13.",
+            "Lean 4 proof (linear algebra over lists) + differential correspondence", "DESIGN.md §6 C15"),
     'C16': ("Lean theorems: with saturated sampling / treatment / outcome models the IPSW weighted arm means (generated "
             "IPSW/IOSW formulas x generated population treatment weights), the g-transport mean and the AIPSW combination "
             "equal the sample's cell means standardized to all rows (generalize) or to the non-sampled rows (transport), "
